@@ -8,7 +8,7 @@ package relayer
 // the queue it builds is non-nil. What it checks / does not check w.r.t. the rest of the invariant is analysed in
 // /var/tmp/ag_rel/NOTES.md section 4 (findings G1-G3).
 //@ func InitGenesis
-//@ property C16 C18
+//@ property C16 C18 C01
 //@ ensures stored: has(st.relayer.Relayer) && has(st.relayer.Params) && has(st.relayer.Queue) && has(st.relayer.Randao)
 //@ ensures relayer_as_given: genState.Relayer != nil && st.relayer.Relayer == *genState.Relayer && st.relayer.Params == genState.Params
 //@ ensures period: st.relayer.Params.ElectingPeriod != 0
